@@ -335,6 +335,9 @@ class CallMixin:
                 else:
                     yield from self.call_attr(opt_inner(obj), attr, args, kwargs, st1, node)
             return
+        if isinstance(obj, Val) and isinstance(obj.ty, TRef) and getattr(dsl.REG.classes.get(obj.ty.cls), "record", None) and attr == "get":
+            yield from self.rec_method(self.unbox_record(obj, st), attr, args, kwargs, st, node, None)
+            return
         if isinstance(obj, Val) and isinstance(obj.ty, TRef):
             fty = self.field_type(obj.ty.cls, attr)
             if fty is not None:    # callable stored in a field: not supported
@@ -629,6 +632,17 @@ class CallMixin:
                         yield st1, Raise(ExcVal("TypeError"))
                     else:
                         yield st1, mk_int(z3.Length(x.terms[1]))
+            elif isinstance(x.ty, TOpt) and isinstance(x.ty.inner, (TLSet, TSet, TMap)):
+                for st1, isn in self.branch(st, opt_isnone(x)):
+                    if isn:
+                        yield st1, Raise(ExcVal("TypeError"))
+                    else:
+                        inner = opt_inner(x)
+                        if isinstance(inner.ty, TMap):
+                            inner = Val(TSet(inner.ty.key), [inner.terms[0]])
+                        yield st1, self.card(inner, st1)
+            elif isinstance(x.ty, TMap):
+                yield st, self.card(Val(TSet(x.ty.key), [x.terms[0]]), st)
             else:
                 raise Unsupported("len of %r" % x.ty, node)
         elif name == "isinstance":
@@ -693,6 +707,17 @@ class CallMixin:
             yield st, fresh(Str, "repr")
         elif name == "getattr":
             obj, nm = args[0], z3.simplify(args[1].t)
+            if z3.is_string_value(nm) and isinstance(obj, Val) and isinstance(obj.ty, TOpaque):
+                # an attribute of an arbitrary object: some value (opaque table key "@<attr>") or absent
+                op = self.opaque_spec("@" + nm.as_string(), "?.@" + nm.as_string())
+                vty = op[0] if op is not None and isinstance(op[0], Ty) else TOpaque("Any")
+                if len(args) > 2:
+                    s2 = st.clone()
+                    yield s2, args[2]
+                else:
+                    yield st.clone(), Raise(ExcVal("AttributeError"))
+                yield st, fresh(vty, "attr_" + nm.as_string())
+                return
             if not (z3.is_string_value(nm) and isinstance(obj, Val) and isinstance(obj.ty, TRef)):
                 raise Unsupported("getattr with a computed name", node)
             if self.field_type(obj.ty.cls, nm.as_string()) is not None:
@@ -774,7 +799,9 @@ class CallMixin:
             return z3.BoolVal(isinstance(ty, table[c.name]))
         if c.kind == "class":
             if isinstance(ty, TOpaque):
-                raise Unsupported("isinstance of an opaque value", node)
+                # an arbitrary object: whether it is an instance of the class is an uninterpreted predicate of the value
+                (srt,) = ty.comps()
+                return z3.Function("isinst!%s!%s" % (c.name, srt), srt, z3.BoolSort())(x.t)
             return z3.BoolVal(False)
         raise Unsupported("isinstance(%r, %r)" % (ty, c), node)
 
